@@ -8,7 +8,7 @@ Main facts:
   `calcReorg` and `ledgerReorg` accepted that list (`Moved`).
 * `step_spec`: the same for every event (block delivery, verification message, restart).
 -/
-import BytomModel.Lemmas.C13Frame
+import BytomModel.Lemmas.C13Chain
 import BytomModel.Lemmas.C13Ledger
 
 namespace BytomModel.Lemmas.C13
@@ -133,28 +133,16 @@ theorem run_snoc (s : NodeLedger.State) (evs : List Ev) (e : Ev) : run s (evs ++
 theorem run_append (s : NodeLedger.State) (a b : List Ev) : run s (a ++ b) = run (run s a) b := by
   simp [run, List.foldl_append]
 
-theorem ite_cases {α : Type} (c : Prop) [Decidable c] (a b : α) :
-    (if c then a else b) = a ∨ (if c then a else b) = b := by
-  by_cases h : c
-  · left; simp [h]
-  · right; simp [h]
-
-/-- `processBlock` either refuses the block before anything is touched, or is a chain step
-    followed by `settle` -/
-theorem processBlock_cases (s : NodeLedger.State) (b : Header) :
-    s.processBlock b = (s, .err) ∨
-    s.processBlock b = s.settle (s.node.processBlock b).1 (s.node.processBlock b).2 := by
-  unfold NodeLedger.State.processBlock
-  dsimp only
-  exact ite_cases _ _ _
+/-- `processBlock` is the validating chain step followed by `settle` -/
+theorem processBlock_eq_settle (s : NodeLedger.State) (b : Header) :
+    s.processBlock b = s.settle (s.chainProcessBlock b).1 (s.chainProcessBlock b).2 := rfl
 
 theorem processBlock_spec (s : NodeLedger.State) (b : Header) :
     Frozen s (s.processBlock b).1 ∨ ∃ att det, Moved s (s.processBlock b).1 att det := by
-  rcases processBlock_cases s b with h | h <;> rw [h]
-  · left; exact Frozen.refl s
-  · rcases settle_spec s _ (s.node.processBlock b).2 (processBlock_viaReorg s.node b) with h1 | ⟨att, det, h1, _, _⟩
-    · left; exact h1
-    · right; exact ⟨att, det, h1⟩
+  rw [processBlock_eq_settle]
+  rcases settle_spec s _ (s.chainProcessBlock b).2 (chainProcessBlock_viaReorg s b) with h1 | ⟨att, det, h1, _, _⟩
+  · left; exact h1
+  · right; exact ⟨att, det, h1⟩
 
 theorem authVerification_spec (s : NodeLedger.State) (o src tgt : Nat) (ok : Bool) :
     Frozen s (s.authVerification o src tgt ok).1 ∨ ∃ att det, Moved s (s.authVerification o src tgt ok).1 att det := by
@@ -190,9 +178,8 @@ theorem step_spec (s : NodeLedger.State) (e : Ev) :
     | some s' => left; exact (restart_spec s s' h).1
 
 theorem processBlock_static (s : NodeLedger.State) (b : Header) : Static s (s.processBlock b).1 := by
-  rcases processBlock_cases s b with h | h <;> rw [h]
-  · exact Static.refl s
-  · exact (settle_frame s _ _).1
+  rw [processBlock_eq_settle]
+  exact (settle_frame s _ _).1
 
 theorem step_static (s : NodeLedger.State) (e : Ev) : Static s (step s e) := by
   cases e with
@@ -303,57 +290,5 @@ theorem Moved.att_stored {pre res : NodeLedger.State} {att det : List Header} (m
   · cases h
   · rw [h]; exact (lookupHeader_some h1).1
   · exact h
-
-/-! ### the chain step of a delivery, case by case -/
-
-/-- `BlockExist(hash) && bestHeight >= block.Height`: the early exit of `processBlock` -/
-def alreadyProcessed (s : Node.State) (b : Header) : Bool :=
-  ((s.header b.id).isSome || s.isOrphan b.id) &&
-    decide ((match s.header s.best with | some h => h.height | none => 0) ≥ b.height)
-
-theorem node_processBlock_eq (s : Node.State) (b : Header) :
-    s.processBlock b =
-      if alreadyProcessed s b = true then (s, if s.isOrphan b.id then .orphan else .ok)
-      else if (s.header b.parent).isNone = true then (s.orphanAdd b, .orphan)
-      else if (s.saveBlock b).2 = false then ((s.saveBlock b).1, .err)
-      else
-        (((State.saveSubBlock (s.saveBlock b).1.fuel (s.saveBlock b).1 b.id).tryReorganize
-            (State.saveSubBlock (s.saveBlock b).1.fuel (s.saveBlock b).1 b.id).bestChain).1,
-         if ((State.saveSubBlock (s.saveBlock b).1.fuel (s.saveBlock b).1 b.id).tryReorganize
-            (State.saveSubBlock (s.saveBlock b).1.fuel (s.saveBlock b).1 b.id).bestChain).2 = true then .ok else .err) := by
-  unfold Node.State.processBlock alreadyProcessed
-  dsimp only
-  cases (s.saveBlock b).2 <;> rfl
-
-theorem node_processBlock_cases (s : Node.State) (b : Header) :
-    (alreadyProcessed s b = true ∧ (s.processBlock b).1 = s) ∨
-    (alreadyProcessed s b = false ∧ (s.header b.parent).isNone = true ∧ s.processBlock b = (s.orphanAdd b, .orphan)) ∨
-    (alreadyProcessed s b = false ∧ (s.header b.parent).isSome = true ∧ (s.saveBlock b).2 = false ∧
-      s.processBlock b = ((s.saveBlock b).1, .err)) ∨
-    (alreadyProcessed s b = false ∧ (s.header b.parent).isSome = true ∧ (s.saveBlock b).2 = true ∧
-      s.processBlock b =
-        (((State.saveSubBlock (s.saveBlock b).1.fuel (s.saveBlock b).1 b.id).tryReorganize
-            (State.saveSubBlock (s.saveBlock b).1.fuel (s.saveBlock b).1 b.id).bestChain).1,
-         if ((State.saveSubBlock (s.saveBlock b).1.fuel (s.saveBlock b).1 b.id).tryReorganize
-            (State.saveSubBlock (s.saveBlock b).1.fuel (s.saveBlock b).1 b.id).bestChain).2 = true then .ok else .err)) := by
-  rw [node_processBlock_eq]
-  cases hk : alreadyProcessed s b with
-  | true => left; simp
-  | false =>
-    right
-    cases hp : s.header b.parent with
-    | none => left; simp
-    | some ph =>
-      right
-      cases hs : (s.saveBlock b).2 with
-      | false => left; simp
-      | true => right; simp
-
-/-- the static part of the node state along a run -/
-theorem node_processBlock_defs (s : Node.State) (b : Header) : (s.processBlock b).1.defs = s.defs := by
-  obtain ⟨mid, hcs, hpost⟩ := processBlock_viaReorg s b
-  rcases hpost with e | ⟨bh, e⟩
-  · rw [e]; exact hcs.defs
-  · rw [e, tryReorganize_defs]; exact hcs.defs
 
 end BytomModel.Lemmas.C13
